@@ -52,8 +52,22 @@ def post_arma2psd(A, B, rho, T, NFFT, sides, norm, result):
     ref = float(np.real(rho)) / float(T) * np.abs(Bf) ** 2 / np.abs(Af) ** 2
     feats = {'fn': 'arma2psd', 'has_A': a is not None, 'has_B': b is not None,
              'cplx': bool((a is not None and np.iscomplexobj(a)) or (b is not None and np.iscomplexobj(b)))}
-    c.compare('arma2psd:equals-(rho/T)|B|^2/|A|^2', np.asarray(result), ref, 1e-9, feats,
-              scale=float(np.max(ref)), detail={'NFFT': nfft, 'T': T, 'rho': rho}, pointwise=1e-9)
+    got = np.asarray(result)
+    if got.shape != ref.shape or not np.all(np.isfinite(got)):
+        return c.fail('arma2psd:equals-(rho/T)|B|^2/|A|^2', {'why': 'shape or non-finite', 'shape': list(got.shape),
+                                                            'NFFT': nfft}, feats)
+    # per-bin conditioning: A(f) is a sum with absolute rounding error ~eps*sum|a|, so the relative error of
+    # 1/|A(f)|^2 is ~eps*sum|a|/|A(f)| (a pole close to the unit circle at a grid frequency is legitimate)
+    na = 1.0 + (float(np.sum(np.abs(a))) if a is not None else 0.0)
+    nb = 1.0 + (float(np.sum(np.abs(b))) if b is not None else 0.0)
+    allowed = 1e-9 + 1e-13 * (na / np.abs(Af) + nb / np.maximum(np.abs(Bf), 1e-300))
+    rel = np.abs(got - ref) / np.maximum(ref, 1e-300)
+    worst = float(np.max(rel / allowed))
+    c.err('arma2psd:relative-error/allowed', worst)
+    i = int(np.argmax(rel / allowed))
+    c.require('arma2psd:equals-(rho/T)|B|^2/|A|^2', worst <= 1.0,
+              {'NFFT': nfft, 'T': T, 'rho': rho, 'bin': i, 'got': got[i], 'ref': ref[i], 'rel_err': float(rel[i]),
+               'allowed': float(allowed[i])}, feats)
 
 
 def setup(c):
@@ -82,6 +96,12 @@ def cases(c):
             out.append({'form': 'class', 'rel': 'scale' if j % 2 == 0 else 'sampling', 'cls': cls, 'p': params, 'N': N,
                         'NFFT': NFFT, 'cplx': int(rng.integers(0, 2)), 'kind': gen.pick(rng, ['noise', 'tones', 'ar']),
                         'fs': draw_fs(rng), 'fs2': draw_fs(rng), 'j': j})
+    # the Daniell periodogram class (13th PSD class of the package): scale_by_freq clause only
+    for j in range(40 if c.tier == 'quick' else 400):
+        N = int(rng.integers(32, 100))
+        out.append({'form': 'class', 'rel': 'scale', 'cls': 'pdaniell', 'p': {'P': int(rng.integers(1, 4))}, 'N': N,
+                    'NFFT': int(N + rng.integers(0, 60)), 'cplx': int(rng.integers(0, 2)), 'kind': 'noise',
+                    'fs': draw_fs(rng), 'fs2': 1.0, 'j': j})
     for j in range(1500 if c.tier == 'quick' else 8000):
         la, lb = int(rng.integers(0, 9)), int(rng.integers(0, 9))
         if la == 0 and lb == 0:
@@ -89,7 +109,8 @@ def cases(c):
         m = max(la, lb)
         out.append({'form': 'arma2psd', 'la': la, 'lb': lb, 'cplx': int(rng.integers(0, 2)),
                     'NFFT': int(gen.pick(rng, [m + 1, m + 2, 16, 17, 64, 101, 256])) if True else 0,
-                    'T': float(10.0 ** rng.uniform(-2, 5)), 'rho': float(10.0 ** rng.uniform(-3, 3)), 'j': j})
+                    'T': float(10.0 ** rng.uniform(-2, 5)), 'rho': float(10.0 ** rng.uniform(-3, 3)),
+                    'near_circle': int(gen.pick(rng, [0, 0, 0, 0, 3, 5, 7, 8])), 'j': j})
     return out
 
 
@@ -99,6 +120,14 @@ def run_case(c, d):
         rng = c.rng(d, 'ab')
         cplx = bool(d['cplx'])
         A = gen.stable_poly(rng, d['la'], cplx)[1:] if d['la'] else None
+        if d.get('near_circle') and d['la']:
+            # one pole a hair inside the unit circle, exactly at a grid frequency (sharp spectral line)
+            NF = max(d['NFFT'], max(d['la'], d['lb']) + 1)
+            kbin = int(rng.integers(0, NF)) if cplx else 0
+            r0 = 1.0 - 10.0 ** (-d['near_circle'])
+            z0 = r0 * np.exp(2j * np.pi * kbin / NF)
+            full = np.convolve(np.concatenate([[1.0], A])[:-1] if d['la'] > 1 else [1.0], [1.0, -z0])
+            A = (full[1:] if cplx else np.real(full[1:]))
         B = gen.stable_poly(rng, d['lb'], cplx, 0.8)[1:] if d['lb'] else None
         NFFT = max(d['NFFT'], max(d['la'], d['lb']) + 1)
         try:
@@ -114,6 +143,18 @@ def run_case(c, d):
     fs = d['fs']
     runs = [('base', fs, False), ('scaled', fs, True)] if d['rel'] == 'scale' else [('base', fs, False), ('fs2', d['fs2'], False)]
     log = []
+    if cls == 'pdaniell':
+        import spectrum
+        try:
+            pa = np.asarray(spectrum.pdaniell(x, d['p']['P'], NFFT=d['NFFT'], sampling=fs, scale_by_freq=False).psd)
+            pb = np.asarray(spectrum.pdaniell(x, d['p']['P'], NFFT=d['NFFT'], sampling=fs, scale_by_freq=True).psd)
+        except Exception as exc:
+            c.exception('pdaniell', exc, feats)
+            return
+        factor = 2 * np.pi * d['NFFT'] / float(fs)
+        c.compare('scale_by_freq:ratio', pb, pa * factor, 1e-10, feats, scale=float(np.max(pa)) * factor,
+                  detail={'N': N, 'NFFT': d['NFFT'], 'fs': fs, 'factor': factor}, pointwise=1e-9)
+        return
     for role, f, sc in runs:
         try:
             p = E.build(cls, d['p'], x, NFFT=d['NFFT'], fs=f, scale=sc)
